@@ -18,10 +18,14 @@ import (
 	"io"
 	"net"
 	"sync"
+	"sync/atomic"
 	"testing"
 	"time"
 
+	"github.com/edgexfoundry/device-sdk-go/v4/pkg/interfaces"
+	dsModels "github.com/edgexfoundry/device-sdk-go/v4/pkg/models"
 	"github.com/edgexfoundry/go-mod-core-contracts/v4/clients/logger"
+	"github.com/edgexfoundry/go-mod-core-contracts/v4/models"
 
 	"github.com/edgexfoundry/device-rfid-llrp-go/pkg/llrp"
 )
@@ -237,6 +241,348 @@ func TestVerifC09Driver(t *testing.T) {
 			continue
 		}
 		_ = enc.Encode(c09dRun(rq))
+		w.Flush()
+	}
+}
+
+// ------------------------------------------------------------------ C09 at the level of the device (TestVerifC09Device)
+//
+// "The serving call returns once the connection ends" for the client the DEVICE SERVICE runs: the supervisor goroutine of an
+// LLRPDevice sits in Client.Connect and can only redial (or wind the device down) once Connect has returned. The llrp.Client runs
+// its message handlers on the read loop, so whether the handlers the driver registers (ROAccessReport, ReaderEventNotification:
+// both forward to EdgeX through the asynchronous-values channel) can keep Connect from returning is a fact about
+// internal/driver/device.go. A REAL LLRPDevice (Driver.NewLLRPDevice) is run against a scripted loopback reader (own frame code)
+// with the consumer of the asynchronous-values channel stalled (or keeping up: control); the reader sends more tag reports /
+// reader events than the channel holds, and then the connection ends in each way it can:
+//   eof          the reader hangs up                          -> the supervisor must redial (a second connection arrives, negotiation starts)
+//   close        Close() on the current client, then the reader says one more thing (a keep-alive)   -> redial
+//   reset        LLRPDevice.resetConn()  (Shutdown; the reader answers and hangs up)                 -> redial
+//   update_addr  LLRPDevice.UpdateAddr(ctx, second listener)                                         -> redial at the new address
+//   stop         LLRPDevice.Stop(ctx)                                                                -> the supervisor ends: the device is removed from the driver's table
+// one answer line: {"id","setup","redialed":bool,"redial_ms":n,"removed":bool,"op_result":..,"op_ms":n,"published":n,"sent":n}
+
+type c09vSDK struct{ interfaces.DeviceServiceSDK }
+
+func (c09vSDK) UpdateDeviceOperatingState(string, models.OperatingState) error { return nil }
+
+type c09vReq struct {
+	ID       string `json:"id"`
+	Cap      int    `json:"cap"`
+	Consumer string `json:"consumer"` // stalled | keeping-up
+	Flood    string `json:"flood"`    // report | report-empty | event | both
+	Extra    int    `json:"extra"`    // messages beyond the channel's capacity
+	Cause    string `json:"cause"`
+	CtxMs    int    `json:"ctx_ms"`
+	BudgetMs int    `json:"budget_ms"`
+}
+
+var c09vConnEvent = []byte{0x00, 0xF6, 0x00, 0x16, 0x00, 0x80, 0x00, 0x0C, 0, 0x05, 0xa7, 0x38, 0x13, 0x3c, 0x2c, 0x9e, 0x01, 0x00, 0x00, 0x06, 0, 0}
+var c09vGPIEvent = []byte{0x00, 0xF6, 0x00, 0x17, 0x00, 0x80, 0x00, 0x0C, 0, 0x05, 0xa7, 0x38, 0x13, 0x3c, 0x2c, 0x9f, 0x00, 0xF8, 0x00, 0x07, 0x00, 0x02, 0x80}
+var c09vTagReport = []byte{0x00, 0xF0, 0x00, 0x11, 0x8D, 1, 2, 3, 4, 5, 6, 7, 8, 9, 10, 11, 12}
+
+func c09vFrame(typ int, id uint32, payload []byte) []byte {
+	b := c09dFrame(typ, id, payload)
+	b[0] = byte(2<<2) | byte(typ>>8)&3
+	return b
+}
+
+type c09vConn struct {
+	conn   net.Conn
+	which  int // listener index
+	setup  chan struct{}
+	sawGSV chan struct{}
+	wmu    sync.Mutex
+}
+
+func (p *c09vConn) write(b []byte) error {
+	p.wmu.Lock()
+	defer p.wmu.Unlock()
+	_ = p.conn.SetWriteDeadline(time.Now().Add(2 * time.Second))
+	_, err := p.conn.Write(b)
+	return err
+}
+
+// serve one connection of the scripted reader: greet, answer negotiation / SetReaderConfig; CloseConnection is answered and
+// the reader hangs up (as readers do)
+func (p *c09vConn) serve() {
+	if p.write(c09vFrame(63, 0, c09vConnEvent)) != nil {
+		return
+	}
+	hb := make([]byte, 10)
+	once, onceG := false, false
+	for {
+		if _, err := io.ReadFull(p.conn, hb); err != nil {
+			return
+		}
+		typ := int(hb[0]&3)<<8 | int(hb[1])
+		n := int(hb[2])<<24 | int(hb[3])<<16 | int(hb[4])<<8 | int(hb[5])
+		id := uint32(hb[6])<<24 | uint32(hb[7])<<16 | uint32(hb[8])<<8 | uint32(hb[9])
+		if n < 10 || n > 1<<20 {
+			return
+		}
+		if _, err := io.ReadFull(p.conn, make([]byte, n-10)); err != nil {
+			return
+		}
+		switch typ {
+		case 46:
+			if !onceG {
+				onceG = true
+				close(p.sawGSV)
+			}
+			_ = p.write(c09vFrame(56, id, append([]byte{2 << 5, 2 << 5}, c09dStatus(0)...)))
+		case 47:
+			_ = p.write(c09vFrame(57, id, c09dStatus(0)))
+		case 3:
+			_ = p.write(c09vFrame(13, id, c09dStatus(0)))
+			if !once {
+				once = true
+				close(p.setup)
+			}
+		case 14:
+			_ = p.write(c09vFrame(4, id, c09dStatus(0)))
+			time.Sleep(2 * time.Millisecond)
+			_ = p.conn.Close()
+			return
+		}
+	}
+}
+
+func c09vRun(rq c09vReq) map[string]interface{} {
+	out := map[string]interface{}{"id": rq.ID}
+	budget := time.Duration(rq.BudgetMs) * time.Millisecond
+	pok := (&llrp.ROAccessReport{}).UnmarshalBinary(c09vTagReport) == nil &&
+		(&llrp.ReaderEventNotification{}).UnmarshalBinary(c09vGPIEvent) == nil
+	out["payload_ok"] = pok
+
+	var lns [2]net.Listener
+	for i := range lns {
+		ln, err := net.Listen("tcp", "127.0.0.1:0")
+		if err != nil {
+			out["setup"] = "listen: " + err.Error()
+			return out
+		}
+		lns[i] = ln
+		defer ln.Close()
+	}
+	conns := make(chan *c09vConn, 16)
+	for i := range lns {
+		go func(i int) {
+			for {
+				c, err := lns[i].Accept()
+				if err != nil {
+					return
+				}
+				p := &c09vConn{conn: c, which: i, setup: make(chan struct{}), sawGSV: make(chan struct{})}
+				conns <- p
+				go p.serve()
+			}
+		}(i)
+	}
+
+	asyncCh := make(chan *dsModels.AsyncValues, rq.Cap)
+	var published int64
+	var consume int32 // 0 stalled, 2 as fast as possible
+	if rq.Consumer == "keeping-up" {
+		consume = 2
+	}
+	stopConsumer := make(chan struct{})
+	consumerDone := make(chan struct{})
+	go func() {
+		defer close(consumerDone)
+		for {
+			if atomic.LoadInt32(&consume) == 0 {
+				select {
+				case <-stopConsumer:
+					return
+				case <-time.After(time.Millisecond):
+				}
+				continue
+			}
+			select {
+			case <-stopConsumer:
+				return
+			case <-asyncCh:
+				atomic.AddInt64(&published, 1)
+			}
+		}
+	}()
+
+	d := &Driver{lc: logger.MockLogger{}, asyncCh: asyncCh, svc: c09vSDK{},
+		activeDevices: make(map[string]*LLRPDevice), done: make(chan struct{}), config: &ServiceConfig{}}
+	const name = "c09dev"
+	dev := d.NewLLRPDevice(name, lns[0].Addr(), models.Up)
+	d.devicesMu.Lock()
+	d.activeDevices[name] = dev
+	d.devicesMu.Unlock()
+	var all []*c09vConn
+	defer func() {
+		atomic.StoreInt32(&consume, 2) // let everything parked on the channel go, then stop the device
+		ctx, cancel := context.WithTimeout(context.Background(), time.Second)
+		_ = dev.Stop(ctx)
+		cancel()
+		for _, p := range all {
+			_ = p.conn.Close()
+		}
+	drain:
+		for {
+			select {
+			case p := <-conns:
+				_ = p.conn.Close()
+			default:
+				break drain
+			}
+		}
+		time.Sleep(20 * time.Millisecond)
+		close(stopConsumer)
+		<-consumerDone
+		out["published"] = atomic.LoadInt64(&published)
+	}()
+
+	var first *c09vConn
+	select {
+	case first = <-conns:
+		all = append(all, first)
+	case <-time.After(5 * time.Second):
+		out["setup"] = "the device did not dial"
+		return out
+	}
+	select {
+	case <-first.setup:
+		out["setup"] = "ok"
+	case <-time.After(5 * time.Second):
+		out["setup"] = "no SetReaderConfig from the device"
+		return out
+	}
+	time.Sleep(5 * time.Millisecond)
+
+	// ---- more reports / events than the channel holds
+	sent := 0
+	for i := 0; i < rq.Cap+rq.Extra; i++ {
+		var fr []byte
+		switch {
+		case rq.Flood == "event" || (rq.Flood == "both" && i%2 == 1):
+			fr = c09vFrame(63, uint32(7000+i), c09vGPIEvent)
+		case rq.Flood == "report-empty":
+			fr = c09vFrame(61, uint32(7000+i), nil)
+		default:
+			fr = c09vFrame(61, uint32(7000+i), c09vTagReport)
+		}
+		if first.write(fr) != nil {
+			out["write_blocked"] = true
+			break
+		}
+		sent++
+	}
+	out["sent"] = sent
+	time.Sleep(30 * time.Millisecond) // the handlers have run (or are parked)
+
+	// ---- the connection ends
+	t0 := time.Now()
+	opDone := make(chan string, 1)
+	switch rq.Cause {
+	case "eof":
+		_ = first.conn.Close()
+		opDone <- "nil"
+	case "close":
+		dev.clientLock.RLock()
+		c := dev.client
+		dev.clientLock.RUnlock()
+		if c == nil {
+			opDone <- "no-client"
+		} else {
+			opDone <- c09dClass(c.Close())
+			_ = first.write(c09vFrame(62, 4242, nil)) // the reader's next message: the read loop gets to look at done
+		}
+	case "reset":
+		go func() { dev.resetConn(); opDone <- "nil" }()
+	case "update_addr":
+		go func() {
+			ctx, cancel := context.WithTimeout(context.Background(), time.Duration(rq.CtxMs)*time.Millisecond)
+			defer cancel()
+			opDone <- c09dClass(dev.UpdateAddr(ctx, lns[1].Addr()))
+		}()
+	case "stop":
+		go func() {
+			ctx, cancel := context.WithTimeout(context.Background(), time.Duration(rq.CtxMs)*time.Millisecond)
+			defer cancel()
+			opDone <- c09dClass(dev.Stop(ctx))
+		}()
+	default:
+		opDone <- "bad-cause"
+	}
+
+	// ---- what the supervisor does next
+	deadline := time.After(budget)
+	redialed, removed := false, false
+	out["op_result"] = "stuck"
+	isRemoved := func() bool {
+		d.devicesMu.RLock()
+		defer d.devicesMu.RUnlock()
+		_, ok := d.activeDevices[name]
+		return !ok
+	}
+	tick := time.NewTicker(2 * time.Millisecond)
+	defer tick.Stop()
+wait:
+	for {
+		select {
+		case r := <-opDone:
+			out["op_result"] = r
+			out["op_ms"] = time.Since(t0).Milliseconds()
+		case p := <-conns:
+			all = append(all, p)
+			select {
+			case <-p.sawGSV: // Connect runs on the new connection: it has accepted the greeting and negotiates
+				redialed = true
+				out["redial_ms"] = time.Since(t0).Milliseconds()
+				out["redial_listener"] = p.which
+			case <-deadline:
+				break wait
+			}
+			if rq.Cause != "stop" {
+				break wait
+			}
+		case <-tick.C:
+			if rq.Cause == "stop" && isRemoved() {
+				removed = true
+				out["removed_ms"] = time.Since(t0).Milliseconds()
+				break wait
+			}
+		case <-deadline:
+			break wait
+		}
+	}
+	if out["op_result"] == "stuck" {
+		select {
+		case r := <-opDone:
+			out["op_result"] = r
+			out["op_ms"] = time.Since(t0).Milliseconds()
+		default:
+		}
+	}
+	out["redialed"] = redialed
+	out["removed"] = removed || isRemoved()
+	return out
+}
+
+func TestVerifC09Device(t *testing.T) {
+	lines, w, done := verifIO(t)
+	defer done()
+	enc := json.NewEncoder(w)
+	for _, line := range lines {
+		var rq c09vReq
+		if err := json.Unmarshal([]byte(line), &rq); err != nil {
+			_ = enc.Encode(map[string]interface{}{"error": "bad request: " + err.Error()})
+			continue
+		}
+		res := make(chan map[string]interface{}, 1)
+		go func() { res <- c09vRun(rq) }()
+		select {
+		case o := <-res:
+			_ = enc.Encode(o)
+		case <-time.After(60 * time.Second):
+			_ = enc.Encode(map[string]interface{}{"id": rq.ID, "error": "watchdog"})
+		}
 		w.Flush()
 	}
 }
